@@ -256,7 +256,8 @@ class Interp:
             return e
         if not has_sym(list(args)) and not has_sym(list(kw.values())):
             mod = getattr(fn, '__module__', None) or getattr(getattr(fn, '__self__', None), '__module__', None) or ''
-            if mod.split('.')[0] in REAL_IO_MODULES or (isinstance(fn, type) and fn.__module__.split('.')[0] in REAL_IO_MODULES):
+            pure_path = mod.split('.')[0] == 'pathlib' and (isinstance(fn, type) or getattr(fn, '__name__', '') in PURE_PATH_METHODS)
+            if not pure_path and (mod.split('.')[0] in REAL_IO_MODULES or (isinstance(fn, type) and fn.__module__.split('.')[0] in REAL_IO_MODULES)):
                 raise Unsupported(f'call into {mod}.{getattr(fn, "__name__", fn)}: real I/O is not performed by the interpreter (no stub)')
             try:
                 return fn(*args, **kw)
@@ -353,6 +354,7 @@ class Interp:
 
 
 FUNCS_SEEN = {}
+PURE_PATH_METHODS = {'with_suffix', 'with_name', 'with_stem', 'joinpath', '__truediv__', '__rtruediv__', '__str__', '__fspath__', '__eq__', '__hash__', 'as_posix', 'is_absolute', 'relative_to', 'match'}
 REAL_IO_MODULES = {'os', 'posix', 'nt', 'shutil', 'subprocess', 'pathlib', 'tempfile', 'socket', 'glob', 'fcntl', 'mmap', 'signal', 'ctypes', 'urllib', 'http', 'requests'}
 
 
